@@ -128,18 +128,33 @@ pub fn c07(opts: &Opts, out: &mut Out) {
     // (value 2^n + 5 under promise 2^n + 3 is the bit pattern of 2). The verifier must refuse it at every position.
     if let Some(mut drv) = crate::scen_wire::Driver::start() {
         use crate::rrun;
-        for (n, m, t) in [(2usize, 1usize, 1usize), (8, 1, 2), (4, 2, 1)] {
+        // promises of 2^n and more in several shapes: just above the range, with only a high bit set (the bits directly
+        // above the range all zero), with the top bit set
+        let cases: Vec<(usize, usize, usize, u64)> = vec![
+            (2, 1, 1, (1u64 << 2) + 3),
+            (8, 1, 2, (1u64 << 8) + 3),
+            (4, 2, 1, (1u64 << 4) + 3),
+            (8, 1, 1, 1u64 << 40),
+            (16, 1, 1, 1u64 << 48),
+            (4, 1, 2, 1u64 << 63),
+            (2, 2, 1, (1u64 << 34) + 1),
+            (8, 1, 1, (1u64 << 63) + (1u64 << 20)),
+        ];
+        for (n, m, t, big) in cases {
             let mut bad = rrun::random_inst(n, m, m, t, 4, false, &mut rng);
             let mut control = bad.clone();
+            let lowmask = (1u64 << n) - 1;
             for j in 0..m {
-                bad.values[j] = (1u64 << n) + 5 - 2 * (j as u64);
-                bad.promises[j] = Some((1u64 << n) + 3 - 2 * (j as u64));
-                control.values[j] = 5 - 2 * (j as u64);
-                control.promises[j] = Some(3 - 2 * (j as u64));
+                let p = big - 2 * (j as u64);
+                let gap = 2u64.min(lowmask);
+                bad.values[j] = p + gap;
+                bad.promises[j] = Some(p);
+                control.values[j] = (p & lowmask).min(lowmask - gap) + gap;
+                control.promises[j] = Some((p & lowmask).min(lowmask - gap));
             }
             let ordinary = rrun::random_inst(n, m, m, t, 5, false, &mut rng);
             let ord_proof = ordinary.prove(&mut rng).expect("prove");
-            let key = format!("oversized promise with an equation-valid proof n={} m={} t={}", n, m, t);
+            let key = format!("oversized promise {} with an equation-valid proof n={} m={} t={}", big, n, m, t);
             let (Some(pb), Some(pc)) = (crate::scen_wire::reference_prove(&mut drv, &bad, &mut rng), crate::scen_wire::reference_prove(&mut drv, &control, &mut rng)) else {
                 out.oracle("C07:reference-prover-ran", false, &key, "the independent prover failed");
                 continue;
@@ -565,6 +580,115 @@ pub fn c08(opts: &Opts, out: &mut Out) {
                 }
             }
         }
+    }
+    // a weight derivation that sees a member's d1 only through fewer than t linear functionals (a sum, a fold with
+    // powers of a challenge, ...) has a kernel: directions in which d1 can move without the weights moving. The kernel
+    // is found from what the verifier absorbs after the last challenge (read at the merlin boundary, one unit step per
+    // coordinate), and then used for the cancellation attack. A derivation that absorbs every d1_k (or a
+    // collision-resistant digest of them) has no such direction and the block does nothing.
+    for (n, t, mode) in [(2usize, 3usize, 0usize), (4, 6, 1), (2, 4, 0)] {
+        let insts: Vec<Inst> = (0..2).map(|g| fmrun::random_inst(n, 1, 1, t, g + 4, mode == 1, &mut rng)).collect();
+        let proofs: Vec<Proof> = insts.iter().map(|i| i.prove(&mut rng).unwrap()).collect();
+        let stmts: Vec<Stmt> = insts.iter().map(|i| i.statement()).collect();
+        let pr = fmrun::params(n, 1, t);
+        let ids = fmx::gen_ids(&pr, n);
+        // run with offsets on d1 of both members; returns (ok, residual, per-member scalars absorbed after the last challenge)
+        let run = |offs: &Vec<Vec<Scalar>>| -> (bool, FP, Vec<Vec<Scalar>>) {
+            let ps: Vec<Proof> = (0..2).map(|g| { let mut parts = fmx::parts(&proofs[g]); for kk in 0..t { parts.d1[kk] += offs[g][kk]; } parts.to_proof().unwrap() }).collect();
+            let mut ts: Vec<_> = insts.iter().map(|i| i.transcript()).collect();
+            let tids: Vec<u64> = ts.iter().map(|x| x.shadow_id).collect();
+            tap::start();
+            fm::tap_start();
+            let r = Proof::verify_batch(&mut ts, &stmts, &ps, if mode == 0 { VerifyAction::VerifyOnly } else { VerifyAction::RecoverAndVerify });
+            let res = fm::tap_take().last().cloned().unwrap_or_default();
+            let recs = tap::take();
+            let tails: Vec<Vec<Scalar>> = tids.iter().map(|id| {
+                let evs: Vec<&merlin::tap::Ev> = recs.iter().filter(|r| r.id == *id).map(|r| &r.ev).collect();
+                let last_ch = evs.iter().rposition(|e| matches!(e, merlin::tap::Ev::Challenge { .. })).map(|x| x + 1).unwrap_or(0);
+                evs[last_ch..].iter().filter_map(|e| match e { merlin::tap::Ev::Append { msg, .. } if msg.len() == 32 => { let mut b = [0u8; 32]; b.copy_from_slice(msg); Option::<Scalar>::from(Scalar::from_canonical_bytes(b)) }, _ => None }).collect()
+            }).collect();
+            (r.is_ok(), res, tails)
+        };
+        let zero = vec![vec![Scalar::ZERO; t]; 2];
+        let (ok0, _, t0) = run(&zero);
+        if !ok0 {
+            continue;
+        }
+        // columns of the (assumed affine) map d1 -> absorbed scalars, for both members stacked
+        let mut rows: Vec<Vec<Scalar>> = vec![];
+        let mut affine = true;
+        for g in 0..2 {
+            let mut cols: Vec<Vec<Scalar>> = vec![];
+            for kk in 0..t {
+                let mut o = zero.clone();
+                o[g][kk] = Scalar::ONE;
+                let (_, _, tk) = run(&o);
+                if tk[g].len() != t0[g].len() {
+                    affine = false;
+                    break;
+                }
+                cols.push(tk[g].iter().zip(t0[g].iter()).map(|(a, b)| a - b).collect());
+            }
+            if !affine {
+                break;
+            }
+            for r_ in 0..t0[g].len() {
+                rows.push((0..t).map(|kk| cols[kk][r_]).collect());
+            }
+        }
+        if !affine {
+            continue;
+        }
+        // kernel of the stacked matrix by Gaussian elimination over the scalar field
+        let mut mtx = rows.clone();
+        let mut pivots: Vec<usize> = vec![];
+        let mut rix = 0usize;
+        for c in 0..t {
+            if let Some(pr_) = (rix..mtx.len()).find(|r_| mtx[*r_][c] != Scalar::ZERO) {
+                mtx.swap(rix, pr_);
+                let inv = mtx[rix][c].invert();
+                for x in mtx[rix].iter_mut() {
+                    *x *= inv;
+                }
+                for r_ in 0..mtx.len() {
+                    if r_ != rix && mtx[r_][c] != Scalar::ZERO {
+                        let f = mtx[r_][c];
+                        let prow = mtx[rix].clone();
+                        for (x, y) in mtx[r_].iter_mut().zip(prow.iter()) {
+                            *x -= f * y;
+                        }
+                    }
+                }
+                pivots.push(c);
+                rix += 1;
+            }
+        }
+        let free: Vec<usize> = (0..t).filter(|c| !pivots.contains(c)).collect();
+        out.stat(&format!("weight_input_kernel_dim_n{}_t{}", n, t), free.len());
+        let Some(&fc) = free.first() else { continue };
+        // kernel vector: free coordinate 1, pivot coordinates from the reduced rows
+        let mut pvec = vec![Scalar::ZERO; t];
+        pvec[fc] = Scalar::ONE;
+        for (ri, c) in pivots.iter().enumerate() {
+            pvec[*c] = -mtx[ri][fc];
+        }
+        let key = format!("kernel direction of the weight input n={} t={} mode={}", n, t, mode);
+        let scaled = |g: usize, f: Scalar| -> Vec<Vec<Scalar>> { let mut o = zero.clone(); for kk in 0..t { o[g][kk] = pvec[kk] * f; } o };
+        let k0 = (0..t).find(|kk| pvec[*kk] != Scalar::ZERO).unwrap();
+        let (oka, ra, _) = run(&scaled(0, Scalar::ONE));
+        let (okb, rb, _) = run(&scaled(1, Scalar::ONE));
+        out.oracle("C08:single-defect-rejected", !oka && !okb, &key, "a batch with one perturbed member was accepted");
+        let (wi, wj) = (ra.coord(ids.gb[k0]) * pvec[k0].invert(), rb.coord(ids.gb[k0]) * pvec[k0].invert());
+        if wj != Scalar::ZERO {
+            let mut oc = scaled(0, Scalar::ONE);
+            let f = -(wi * wj.invert());
+            for kk in 0..t {
+                oc[1][kk] = pvec[kk] * f;
+            }
+            let (okc, _, _) = run(&oc);
+            out.oracle("C08:cancelling-defects-rejected", !okc, &key, "batch with equal-and-opposite defects along a direction that leaves the weight input unchanged ACCEPTED");
+        }
+        classes.insert((n, 2, t, mode, 200));
     }
     // batches with *repeated* members: the same (statement, proof, transcript) triple several times. Defects are
     // applied to every copy of a group alike; a weight derivation in which equal members cancel (for instance an XOR
